@@ -361,3 +361,42 @@ func VP_C06_SafeNormal() {
 	}
 	vp.Reach("end")
 }
+
+// VP_C06_CapsuleSDF: a capsule along +z from a symbolic base point with
+// symbolic length and radius: the field is the radius minus the distance to
+// the axis segment (three regions), its sign agrees with Contains, the
+// nearest point is on the surface at the reported distance and the ball test
+// is |SDF| <= r.
+func VP_C06_CapsuleSDF() {
+	p1 := vpPoint("p1")
+	h, r := vp.Float64("len"), vp.Float64("radius")
+	vp.Assume(vp.And(h > 0.01, r > 0.01))
+	cp := &Capsule{P1: p1, P2: p1.Add(Z(h)), Radius: r}
+	c := vpPoint("c")
+	d := c.Sub(p1)
+	var dist2 float64 // squared distance to the axis segment
+	switch vp.Param("region") {
+	case 0:
+		vp.Assume(d.Z < 0)
+		dist2 = d.Dot(d)
+	case 1:
+		vp.Assume(d.Z > h)
+		dist2 = d.X*d.X + d.Y*d.Y + (d.Z-h)*(d.Z-h)
+	case 2:
+		vp.Assume(vp.And(d.Z >= 0, d.Z <= h))
+		dist2 = d.X*d.X + d.Y*d.Y
+	}
+	sdf := cp.SDF(c)
+	v := r - sdf
+	vp.Assert(vp.And(v >= 0, v*v == dist2), "SDF is the radius minus the distance to the axis segment")
+	vp.Assert(cp.Contains(c) == (dist2 <= r*r), "Contains is the closed capsule")
+	if vp.Param("point") == 1 {
+		vp.Assume(dist2 > 1e-6) // on the axis the nearest point is not unique
+		q, sdf2 := cp.PointSDF(c)
+		vp.Assert(sdf2 == sdf, "PointSDF reports the same distance")
+		vp.Assert(cp.SDF(q) == 0, "nearest point lies on the surface")
+		e := c.Sub(q)
+		vp.Assert(e.Dot(e) == sdf*sdf, "nearest point is at the reported distance")
+	}
+	vp.Reach("end")
+}
